@@ -1,5 +1,6 @@
 """C07 - cached replies expire at the earlier of client and server TTL (lru.go, cache.go adapter, message.go accessors,
-and end to end through the real client over fakeredis): see checks/storecommon.py."""
+end to end through the real client over fakeredis, and the PTTL probe / reader rule between store and server
+(CacheFill.tla cases with scripted PTTL answers)): see checks/storecommon.py."""
 from checks import storecommon
 LEVEL = 'model_checking'
 
